@@ -38,6 +38,9 @@ CHECKS = {
  "C13": dict(engine="simrt+simnet+modelredis", cat="exploration", ref="DESIGN.md 5/C13",
    text="Seeded search over the tool's own write-command table (read at run time) x arities x per-key pass/fail x whitelist/blacklist, observed as the command received by the target model in a simulated incremental sync; key positions come from the Redis command documentation.",
    tech="deterministic simulation as observation path (incremental sync into a logging target model) + documented key specifications as reference"),
+ "C07": dict(engine="simrt+simnet+modelredis", cat="exploration", ref="DESIGN.md 5/C07",
+   text="Seeded search over RDB contents x filters x target.db x key_exists x 1-8 parallel workers x per-connection latency x worker interleavings, through the real full-sync phase and restore mode (real file); the target dataset is compared key by key with the reference decoding; injected error replies must never be hidden behind a signalled completion.",
+   tech="deterministic simulation: scheduled worker pool against a target model with injected error replies; reference decoder and filter predicate as oracle"),
  "C18": dict(engine="simrt", cat="exploration", ref="DESIGN.md 5/C18",
    text="Seeded search over writer/reader/closer scripts and lock-granularity interleavings of the real backlog ring against an absolute-offset log model (interval semantics for in-flight writes), with lost-wake-up analysis at quiescence.",
    tech="deterministic simulation: tape-driven baton scheduler over instrumented locks/conds + absolute-offset log model"),
